@@ -79,11 +79,87 @@ type linEval struct {
 		b  lbound
 	}
 	bind map[*ssa.Parameter]lbound
+	// at: the instruction whose dominating conditions may tighten operand bounds
+	at       ssa.Instruction
+	noRefine int
+	// loop-carried phis: bounds assumed while the back edges are checked against them
+	assume  map[*ssa.Phi]lbound
+	busy    map[*ssa.Phi]bool
+	hitBusy bool
 }
 
-// eval returns linear bounds of an integer value. treeType != nil: we are inside an
-// expression tree of that fixed-width type and compute over ℤ (ring homomorphism).
+// eval returns linear bounds of an integer value, tightened by the comparisons that dominate
+// the instruction under evaluation (if port >= r.MaxPort { return r.MinPort }; return port + 1).
 func (le *linEval) eval(v ssa.Value, depth int) lbound {
+	return le.refine(v, le.eval0(v, depth), depth)
+}
+
+func (le *linEval) refine(v ssa.Value, b lbound, depth int) lbound {
+	if !b.ok || le.at == nil || le.noRefine > 0 || depth > 12 {
+		return b
+	}
+	if _, isC := v.(*ssa.Const); isC {
+		return b
+	}
+	if in, ok := le.at.(ssa.Instruction); !ok || in.Block() == nil {
+		return b
+	}
+	le.noRefine++
+	defer func() { le.noRefine-- }()
+	tightenHi := func(c lin) {
+		if leAllLin(c, b.hi) {
+			b.hi = c
+		}
+	}
+	tightenLo := func(c lin) {
+		if leAllLin(b.lo, c) {
+			b.lo = c
+		}
+	}
+	for _, f := range le.w.factsAt(le.at) {
+		switch f.Op {
+		case "<":
+			switch {
+			case f.X == v:
+				if o := le.eval0(f.Y, depth+1); o.ok {
+					if f.Truth {
+						tightenHi(o.hi.sub(lin{0, 0, 1}))
+					} else {
+						tightenLo(o.lo)
+					}
+				}
+			case f.Y == v:
+				if o := le.eval0(f.X, depth+1); o.ok {
+					if f.Truth {
+						tightenLo(o.lo.add(lin{0, 0, 1}))
+					} else {
+						tightenHi(o.hi)
+					}
+				}
+			}
+		case "==":
+			if !f.Truth {
+				continue
+			}
+			var other ssa.Value
+			switch {
+			case f.X == v:
+				other = f.Y
+			case f.Y == v:
+				other = f.X
+			default:
+				continue
+			}
+			if o := le.eval0(other, depth+1); o.ok {
+				tightenHi(o.hi)
+				tightenLo(o.lo)
+			}
+		}
+	}
+	return b
+}
+
+func (le *linEval) eval0(v ssa.Value, depth int) lbound {
 	if depth > 12 {
 		return lbound{}
 	}
@@ -112,7 +188,12 @@ func (le *linEval) eval(v ssa.Value, depth int) lbound {
 			}
 		}
 	case *ssa.BinOp:
+		savedAt := le.at
+		if x.Block() != nil {
+			le.at = x
+		}
 		l, r := le.eval(x.X, depth+1), le.eval(x.Y, depth+1)
+		le.at = savedAt
 		if !l.ok || !r.ok {
 			return lbound{}
 		}
@@ -167,33 +248,101 @@ func (le *linEval) eval(v ssa.Value, depth int) lbound {
 		}
 		if name == "Intn" || name == "IntN" {
 			arg := le.eval(x.Call.Args[len(x.Call.Args)-1], depth+1)
-			le.intnArg = append(le.intnArg, struct {
-				at ssa.Instruction
-				b  lbound
-			}{x, arg})
+			seenIntn := false
+			for i := range le.intnArg {
+				if le.intnArg[i].at == ssa.Instruction(x) {
+					le.intnArg[i].b, seenIntn = arg, true
+				}
+			}
+			if !seenIntn {
+				le.intnArg = append(le.intnArg, struct {
+					at ssa.Instruction
+					b  lbound
+				}{x, arg})
+			}
 			if !arg.ok {
 				return lbound{}
 			}
 			return lbound{lin{0, 0, 0}, arg.hi.sub(lin{0, 0, 1}), true}
 		}
 	case *ssa.Phi:
+		if b, ok := le.assume[x]; ok {
+			return b
+		}
+		if le.busy[x] {
+			le.hitBusy = true
+			return lbound{}
+		}
+		if le.busy == nil {
+			le.busy, le.assume = map[*ssa.Phi]bool{}, map[*ssa.Phi]lbound{}
+		}
+		join := func(out lbound, first bool, eb lbound) (lbound, bool) {
+			if first {
+				return eb, true
+			}
+			return hullLin(out, eb)
+		}
+		// pass 1: the edges that do not come back to this phi
+		le.busy[x] = true
+		savedAt := le.at
 		var out lbound
 		first := true
-		for _, e := range x.Edges {
+		var cyclic []ssa.Value
+		for i, e := range x.Edges {
+			if deadEdge(x.Block().Preds[i], x.Block()) {
+				continue
+			}
+			savedHit := le.hitBusy
+			le.hitBusy = false
+			le.at = x.Block().Preds[i].Instrs[len(x.Block().Preds[i].Instrs)-1]
+			nIssues := len(le.issues)
 			eb := le.eval(e, depth+1)
+			hit := le.hitBusy
+			le.hitBusy = savedHit || hit
+			le.at = savedAt
+			if hit {
+				le.issues = le.issues[:nIssues]
+				cyclic = append(cyclic, e)
+				continue
+			}
 			if !eb.ok {
+				delete(le.busy, x)
 				return lbound{}
 			}
-			if first {
-				out, first = eb, false
-			} else if eb.lo != out.lo || eb.hi != out.hi {
-				// different linear bounds: keep them only if one contains the other everywhere
-				if leAllLin(out.lo, eb.lo) && leAllLin(eb.hi, out.hi) {
-					continue
+			var ok bool
+			if out, ok = join(out, first, eb); !ok {
+				delete(le.busy, x)
+				return lbound{}
+			}
+			first = false
+		}
+		delete(le.busy, x)
+		if first {
+			return lbound{}
+		}
+		if len(cyclic) == 0 {
+			return out
+		}
+		// pass 2: with the phi assumed within those bounds, every back edge stays within them
+		le.hitBusy = false
+		le.assume[x] = out
+		defer delete(le.assume, x)
+		for i, e := range x.Edges {
+			isCyc := false
+			for _, ce := range cyclic {
+				if ce == e {
+					isCyc = true
 				}
-				if leAllLin(eb.lo, out.lo) && leAllLin(out.hi, eb.hi) {
-					out = eb
-					continue
+			}
+			if !isCyc || deadEdge(x.Block().Preds[i], x.Block()) {
+				continue
+			}
+			le.at = x.Block().Preds[i].Instrs[len(x.Block().Preds[i].Instrs)-1]
+			eb := le.eval(e, depth+1)
+			le.at = savedAt
+			if !eb.ok || !leAllLin(out.lo, eb.lo) || !leAllLin(eb.hi, out.hi) {
+				if eb.ok {
+					le.issues = append(le.issues, fmt.Sprintf("the loop-carried value at %s leaves [%s, %s] on a back edge: [%s, %s]", w.instrPos(x), out.lo, out.hi, eb.lo, eb.hi))
 				}
 				return lbound{}
 			}
@@ -204,6 +353,29 @@ func (le *linEval) eval(v ssa.Value, depth int) lbound {
 }
 
 func leAllLin(a, b lin) bool { return geAll(b.sub(a), 0) }
+
+// hullLin: the smallest bounds containing both, when the lower bounds and the upper bounds are
+// each ordered the same way at every vertex of the precondition polytope.
+func hullLin(a, b lbound) (lbound, bool) {
+	out := lbound{ok: true}
+	switch {
+	case leAllLin(a.lo, b.lo):
+		out.lo = a.lo
+	case leAllLin(b.lo, a.lo):
+		out.lo = b.lo
+	default:
+		return lbound{}, false
+	}
+	switch {
+	case leAllLin(b.hi, a.hi):
+		out.hi = a.hi
+	case leAllLin(a.hi, b.hi):
+		out.hi = b.hi
+	default:
+		return lbound{}, false
+	}
+	return out, true
+}
 
 func isUint16(t types.Type) bool {
 	b, ok := t.Underlying().(*types.Basic)
@@ -222,7 +394,10 @@ func (le *linEval) inline(call *ssa.Call, cal *ssa.Function, depth int) lbound {
 	}
 	var out lbound
 	first := true
+	savedAt := le.at
+	defer func() { le.at = savedAt }()
 	for _, r := range returnsOf(cal) {
+		le.at = r
 		rb := le.eval(le.w.resolveLoad(r.Results[0]), depth+1)
 		if !rb.ok {
 			out = lbound{}
@@ -232,15 +407,12 @@ func (le *linEval) inline(call *ssa.Call, cal *ssa.Function, depth int) lbound {
 		if first {
 			out, first = rb, false
 		} else if rb.lo != out.lo || rb.hi != out.hi {
-			if leAllLin(out.lo, rb.lo) && leAllLin(rb.hi, out.hi) {
-				continue
+			h, ok := hullLin(out, rb)
+			if !ok {
+				out = lbound{}
+				break
 			}
-			if leAllLin(rb.lo, out.lo) && leAllLin(out.hi, rb.hi) {
-				out = rb
-				continue
-			}
-			out = lbound{}
-			break
+			out = h
 		}
 	}
 	for _, p := range cal.Params {
@@ -324,7 +496,9 @@ func runC20(c *Ctx) {
 			continue
 		}
 		for i, p := range ports {
+			le.at = portAt[i]
 			b := le.eval(p, 0)
+			le.at = nil
 			switch {
 			case !b.ok:
 				why := "expression outside the linear domain"
